@@ -6,7 +6,9 @@
 //
 //   - Hash_DRBG reseed: seed_material = 0x01 || entropy_input || V || additional_input
 //     (SP 800-90A: 0x01 || V || entropy_input || additional_input);
-//   - Hash_DRBG and CTR_DRBG deliver at most one hash / cipher block per request;
+//   - Hash_DRBG and CTR_DRBG deliver at most one hash / cipher block per request (otherwise
+//     all three mechanisms serve at most 2048 bytes per request, the maximum the package
+//     chose below the specification's 2^19 bits);
 //   - minimum lengths: Hash entropy >= outlen, nonce >= outlen/2; CTR entropy >= 32
 //     bytes, nonce >= 16 bytes (instantiate and reseed);
 //   - besides the reseed counter a reseed time interval (decided by the workload,
@@ -66,12 +68,14 @@ var (
 	LevelTest = Level{"test", 8, 6 * time.Second}
 )
 
-// MaxRequest is max_number_of_bits_per_request of SP 800-90A table 2 / table 3
-// (2^19 bits) in bytes. The package applies tighter limits (PackageMaxRequest);
-// the model enforces the specification's.
-const MaxRequest = 1 << 16
+// SpecMaxRequest is max_number_of_bits_per_request of SP 800-90A table 2 / table 3
+// (2^19 bits) in bytes: the most an implementation may serve per request.
+const SpecMaxRequest = 1 << 16
 
-// PackageMaxRequest is the package's documented MAX_BYTES_PER_GENERATE.
+// PackageMaxRequest is the limit the package documents and announces through
+// MaxBytesPerRequest() for all three mechanisms (MAX_BYTES_PER_GENERATE, 2^14 bits; an
+// implementation may choose a smaller maximum than the specification's). The model enforces
+// it: a larger request is refused without touching the state. GM mode: one block instead.
 const PackageMaxRequest = 1 << 11
 
 var (
@@ -174,11 +178,9 @@ type Generator interface {
 	NeedReseed() bool
 	// Counter returns reseed_counter (1 after a (re)seed; Generate calls since then + 1).
 	Counter() uint64
-	// MaxRequest returns the largest request the model serves: one block in GM mode for Hash and CTR,
-	// the specification's 2^19 bits otherwise.
+	// MaxRequest returns the largest request that is served, which is also what the package documents
+	// for MaxBytesPerRequest(): one block in GM mode for Hash and CTR, PackageMaxRequest otherwise.
 	MaxRequest() int
-	// PackageMax returns what the package documents for MaxBytesPerRequest().
-	PackageMax() int
 	// MinEntropy returns the smallest entropy input the documented bounds accept on reseed.
 	MinEntropy() int
 	Clone() Generator
@@ -314,12 +316,6 @@ func (d *HashDRBG) MaxRequest() int {
 	if d.Mode == GM {
 		return d.H.Size
 	}
-	return MaxRequest
-}
-func (d *HashDRBG) PackageMax() int {
-	if d.Mode == GM {
-		return d.H.Size
-	}
 	return PackageMaxRequest
 }
 func (d *HashDRBG) MinEntropy() int { e, _ := hashMin(d.H, d.Mode); return e }
@@ -403,8 +399,7 @@ func (d *HMACDRBG) Generate(n int, additional []byte) ([]byte, error) {
 
 func (d *HMACDRBG) NeedReseed() bool { return d.ReseedCounter > d.Level.Interval }
 func (d *HMACDRBG) Counter() uint64  { return d.ReseedCounter }
-func (d *HMACDRBG) MaxRequest() int  { return MaxRequest }
-func (d *HMACDRBG) PackageMax() int  { return PackageMaxRequest }
+func (d *HMACDRBG) MaxRequest() int  { return PackageMaxRequest }
 
 // MinEntropy: the package documents outlen for a reseed in GM mode.
 func (d *HMACDRBG) MinEntropy() int {
@@ -555,12 +550,6 @@ func (d *CTRDRBG) MaxRequest() int {
 	if d.Mode == GM {
 		return d.B.BlockLen
 	}
-	return MaxRequest
-}
-func (d *CTRDRBG) PackageMax() int {
-	if d.Mode == GM {
-		return d.B.BlockLen
-	}
 	return PackageMaxRequest
 }
 func (d *CTRDRBG) MinEntropy() int { e, _ := ctrMin(d.Mode); return e }
@@ -600,7 +589,7 @@ var ErrSource = errors.New("ref/drbg: entropy source failed or was short")
 var ErrStrength = errors.New("ref/drbg: invalid security strength")
 
 // Prng models DrbgPrng: instantiate from strength bytes of entropy and strength/2 bytes of
-// nonce; Read chains requests of at most PackageMax bytes and, when the generator asks for it,
+// nonce; Read chains requests of at most MaxRequest() bytes and, when the generator asks for it,
 // reseeds with strength fresh bytes and no additional input.
 type Prng struct {
 	G        Generator
@@ -636,7 +625,7 @@ func NewPrng(src Source, requested int, needGMStrength bool, mk func(entropy, no
 // Read returns the bytes produced before an error together with the error (the package
 // reports n=0 on error; the workload accepts any n up to len(produced)).
 func (p *Prng) Read(n int) (produced []byte, err error) {
-	max := p.G.PackageMax()
+	max := p.G.MaxRequest()
 	for len(produced) < n {
 		k := n - len(produced)
 		if k > max {
